@@ -253,9 +253,31 @@ func c11Oracle(r *RunCtx) error {
 				signer, kind = m.Creator, "update"
 				op = fmt.Sprintf("(OUpdate %s %s %s %s)", tab.sp(m.Creator), tab.sid("n:"+m.Name), tab.did(m.Data), cZ(e.Ctx.BlockTime().UnixNano()))
 			}
+			// what a reader of each stored feed gets by name (the getter every handler and x/storage's price read use)
+			byName := func(stored map[string]oracletypes.Feed) map[string]oracletypes.Feed {
+				out := map[string]oracletypes.Feed{}
+				for n := range stored {
+					if f, ok := e.App.OracleKeeper.GetFeed(e.Ctx, n); ok {
+						out[n] = f
+					}
+				}
+				return out
+			}
+			preRead := byName(pre)
 			res := e.Run(msg)
 			postC, post := observe()
+			postRead := byName(pre)
 			desc := map[string]interface{}{"family": "oracle", "msg": fmt.Sprintf("%T %+v", msg, msg), "out": res.Out, "err": res.Err, "pre": preC, "post": postC}
+			for n, f := range pre {
+				if g, ok := preRead[n]; !ok || g != f {
+					r.Finding("C11/oracle/feed-read-by-name-is-another-record", fmt.Sprintf("reading feed %q by name does not return the record stored under that name", n), desc)
+				}
+				if pr, ok := preRead[n]; ok {
+					if po, still := postRead[n]; (!still || po != pr) && !c11SameAccount(f.Owner, signer) {
+						r.Finding("C11/oracle/foreign-feed-changed", fmt.Sprintf("what a reader of feed %q (owned by %s) gets was changed by a message signed by %s", n, f.Owner, signer), desc)
+					}
+				}
+			}
 			own, present := false, false
 			for n, f := range pre {
 				g, still := post[n]
@@ -302,7 +324,7 @@ func c11Oracle(r *RunCtx) error {
 		// look-alike names (surrounding blanks, other case) of existing feeds, created by every signer: a feed
 		// record is identified by its exact name, and nothing a stranger creates may land on someone else's feed
 		for _, n := range names[:2] {
-			for _, v := range []string{" " + n, n + " ", "\t" + n, strings.ToUpper(n), n + "\n"} {
+			for _, v := range []string{" " + n, n + " ", "\t" + n, strings.ToUpper(n), n + "\n", n + "-usd", n + ".", n + "!x", n + "#", n[:len(n)-1]} {
 				_ = step(&oracletypes.MsgCreateFeed{Creator: PickOne(p, signers[:6]).str(), Name: v})
 			}
 		}
@@ -311,7 +333,7 @@ func c11Oracle(r *RunCtx) error {
 			n string
 		}
 		pairs := []pair{}
-		for _, n := range names {
+		for _, n := range append(append([]string{}, names...), names[0]+"-usd", names[1]+".") {
 			for _, s := range signers {
 				pairs = append(pairs, pair{s, n})
 			}
